@@ -1,18 +1,106 @@
-"""Path-provenance kinds for filesystem arguments (C10 R10.5, C14 R14.1).
+"""Path-provenance dataflow for filesystem arguments (C10 R10.5, C14 R14.1-R14.4).
+
+Every expression is abstracted to a *set* of kinds (a list is abstracted by the kinds of its elements):
 
   Resolved   a search directory joined with the included name (what the include search returned)
-  Dir        a search directory: an element of include_dirs, or dirname(abspath(<file being read>)), or cwd on the source-string branch
-  UserGiven  the caller's own path_or_source (relative to the caller by definition)
-  RawToken   text taken from the source line (relative to nothing in particular -> resolved against the process cwd)
-  NoneK      the constant None
-  Unknown
+  Dir        a search directory given by the caller (an element of assemble()'s include_dirs)
+  AdjDir     dirname(<path of a file that is being read>): the directory adjacent to the including file
+  CwdDir     os.getcwd()
+  UserGiven  the caller's own path (assemble()'s path_or_source, a command-line argument): relative to the caller by definition
+  CliArgs    the argparse namespace (its attributes are UserGiven)
+  RawToken   text cut out of file content / a source line (split, partition, regex, read): relative to nothing in particular,
+             i.e. resolved against the process cwd when it reaches the filesystem
+  Literal    a string literal
+  NoneK      None / an empty container / a non-string constant (neutral)
+  Unknown    not classified
+
+The dataflow is demand driven and follows values through
+  * local variables by *reaching definitions* on the structured control flow (a definition that dominates the use kills the
+    earlier ones; loops add their back-edge definitions; both arms of an `if`, `try` handlers, `with` targets, comprehension
+    targets, tuple unpacking incl. `for i, x in enumerate(...)` and tuple-returning helpers);
+  * in-place growth of a list held in a local (`x.append(v)`, `x.extend(w)`, `x += w`, `x.insert(i, v)`);
+  * parameters (union over every call site: positional, keyword, defaults, `*args`; a function whose name is used as a value may be
+    called from anywhere: Unknown is added);
+  * helper functions, module-level or nested (kinds of the returned expressions; closures read their free variables in the
+    enclosing function; module-level constants);
+  * object attributes (union over every store `<x>.attr = v` in the program, constructor bindings included).
+Interprocedural summaries (parameters, returns, attributes) are solved as a least fixed point, so recursion (read_lines calling
+itself with a path it resolved) needs no special case.
+
+Path values may be strings handled with os.path or pathlib objects (`Path(x)`, `d / name`, `.joinpath`, `.parent`, `.resolve()`,
+`.exists()` / `.read_bytes()` / `.open()` as sinks); `filter(os.path.exists, xs)` / `map(os.path.abspath, xs)` apply the function to
+every element.  Calls through a local alias of a function or a function-valued parameter are resolved; a function whose name
+escapes (stored in a table, returned) may be called from anywhere.
+
+More analyses share the same machinery:
+  * `cwd_guard`   - is a use of the working directory (os.getcwd(), Path.cwd(), abspath('.')) executed only when
+                    os.path.exists(<the caller's input>) is false?  Decided by a truth table over the enclosing conditions,
+                    conditional expressions, short-circuit operands and preceding guard clauses (`if t: return ...`);
+  * `is_abs`      - the expression is definitely an absolute path / a list of absolute paths (os.path.abspath, join(abs, ...),
+                    dirname(abs)), used for the CLI rule;
+  * `aliases`     - local names that may denote the *same object* as a parameter (plain copies of the reference, `p or []`,
+                    `p if c else []`), used to see in-place mutation of the caller's list;
+  * `reach`       - functions reachable from an entry point, counting a function whose name is used as a value (dispatch tables,
+                    higher-order helpers) as reachable.
 """
 import ast
 
 from .core import AnalysisError
 from .astutil import unparse, dotted, walk_no_nested
 
-ORDER = ['NoneK', 'Resolved', 'Dir', 'UserGiven', 'Unknown', 'RawToken']
+DIRKINDS = frozenset({'Dir', 'AdjDir', 'CwdDir'})
+ORDER = ['NoneK', 'ObjAttrs', 'Resolved', 'AdjDir', 'Dir', 'CwdDir', 'UserGiven', 'CliArgs', 'Unknown', 'Literal', 'RawToken']
+COARSE = {'AdjDir': 'Dir', 'CwdDir': 'Dir', 'CliArgs': 'UserGiven'}
+EMPTY = frozenset()
+NONE = frozenset({'NoneK'})
+UNKNOWN = frozenset({'Unknown'})
+RAW = frozenset({'RawToken'})
+
+SINKS = ('open', 'io.open', 'os.path.getsize', 'os.path.exists', 'os.path.isdir', 'os.path.isfile', 'os.stat', 'os.path.getmtime',
+         'os.listdir', 'os.scandir', 'os.access')
+# str -> str methods that keep the text (and hence its provenance)
+KEEP_METHODS = {'strip', 'lstrip', 'rstrip', 'lower', 'upper', 'casefold', 'replace', 'removeprefix', 'removesuffix', 'expandtabs',
+                'encode', 'decode', 'title', 'swapcase', 'capitalize', 'copy', '__str__'}
+# methods that cut a text into pieces / read file content
+CUT_METHODS = {'split', 'rsplit', 'splitlines', 'partition', 'rpartition', 'read', 'readline', 'readlines', 'group', 'groups',
+               'groupdict', 'findall', 'finditer', 'match', 'search', 'fullmatch', 'sub', 'subn'}
+PASS_CALLS = {'list', 'tuple', 'sorted', 'set', 'frozenset', 'reversed', 'iter', 'copy.copy', 'copy.deepcopy', 'os.path.abspath',
+              'os.path.normpath', 'os.path.realpath', 'os.path.expanduser', 'os.path.expandvars', 'os.path.normcase', 'str',
+              'os.fspath', 'os.fsdecode', 'next'}
+FRESH_CALLS = {'list', 'tuple', 'sorted', 'set', 'frozenset', 'copy.copy', 'copy.deepcopy', 'dict'}
+LIST_MUTATORS = {'append', 'extend', 'insert', 'remove', 'pop', 'clear', 'sort', 'reverse', 'add', 'update', 'discard', '__setitem__',
+                 '__delitem__', '__iadd__'}
+
+
+PATH_CTORS = ('pathlib.Path', 'Path', 'pathlib.PurePath', 'PurePath', 'pathlib.PosixPath', 'PosixPath')
+PATH_SINK_METHODS = {'exists', 'is_file', 'is_dir', 'read_text', 'read_bytes', 'stat', 'iterdir', 'glob', 'rglob', 'lstat', 'samefile'}
+PATH_KEEP_METHODS = {'resolve', 'absolute', 'expanduser', 'as_posix', 'with_suffix', 'with_name'}
+
+
+def is_cwd_expr(node):
+    """The expression denotes the process working directory: os.getcwd(), Path.cwd(), abspath('.') / abspath('') / abspath(os.curdir)."""
+    if not isinstance(node, ast.Call):
+        return False
+    d = dotted(node.func)
+    if d in ('os.getcwd', 'os.getcwdb', 'pathlib.Path.cwd', 'Path.cwd'):
+        return True
+    if d in ('os.path.abspath', 'os.path.realpath') + PATH_CTORS and len(node.args) == 1:
+        a = node.args[0]
+        return (isinstance(a, ast.Constant) and a.value in ('.', '', './')) or dotted(a) == 'os.curdir'
+    if d in PATH_CTORS and not node.args and not node.keywords:
+        return True         # Path() is Path('.')
+    return False
+
+
+def walk_fn(node):
+    """ast.walk over a function body that enters lambdas (they are part of the function) but not nested defs / classes."""
+    todo = list(ast.iter_child_nodes(node))
+    while todo:
+        n = todo.pop()
+        yield n
+        if isinstance(n, (ast.FunctionDef, ast.AsyncFunctionDef, ast.ClassDef)):
+            continue
+        todo.extend(ast.iter_child_nodes(n))
 
 
 def worst(kinds):
@@ -20,183 +108,1300 @@ def worst(kinds):
     return max(kinds, key=ORDER.index)
 
 
+def coarse(kinds):
+    """One display kind for a set of kinds (the worst, with the directory flavours folded into Dir)."""
+    return COARSE.get(worst(kinds or ['NoneK']), worst(kinds or ['NoneK']))
+
+
+def _exits(body):
+    """The statement list never falls through its end."""
+    return bool(body) and isinstance(body[-1], (ast.Raise, ast.Return, ast.Continue, ast.Break))
+
+
+def _bind(target, name):
+    """How an assignment target binds `name`: None | ('expr',) | ('unpack', index, arity, starred)."""
+    if isinstance(target, ast.Name):
+        return ('expr',) if target.id == name else None
+    if isinstance(target, (ast.Tuple, ast.List)):
+        n = len(target.elts)
+        for i, e in enumerate(target.elts):
+            starred = isinstance(e, ast.Starred)
+            e2 = e.value if starred else e
+            if isinstance(e2, ast.Name) and e2.id == name:
+                return ('unpack', i, n, starred)
+            if isinstance(e2, (ast.Tuple, ast.List)) and _bind(e2, name):
+                return ('unpack', i, n, True)        # nested pattern: treated like a starred slot (a sub-collection)
+    return None
+
+
 class Prov:
     def __init__(self, facts, cg):
         self.facts = facts
         self.cg = cg
-        self.memo = {}
+        self.qual_of = {id(fn): q for q, fn in cg.funcs.items()}
+        self.tab = {}            # summary key -> frozenset of kinds (least fixed point)
+        self.abs_tab = {}
         self.busy = set()
+        self.cuts = 0
+        self.memo = {}
+        self._value_refs = None
+        # entry points: the public API
+        self.seeds = {('param', 'assemble', 'path_or_source'): frozenset({'UserGiven'}),
+                      ('param', 'assemble', 'include_dirs'): frozenset({'Dir'})}
 
+    # -- program structure ------------------------------------------------------------------------------------------------
     def fn_of(self, qual):
         return self.cg.funcs[qual]
 
-    def param_kind(self, qual, name):
-        """Kind of a parameter = worst over its call sites (entry points: UserGiven for assemble / top-level read_lines)."""
-        key = ('param', qual, name)
-        if key in self.memo:
-            return self.memo[key]
-        if key in self.busy:
-            return 'NoneK'
-        self.busy.add(key)
-        fn = self.fn_of(qual)
-        params = [a.arg for a in fn.args.args]
-        kinds = []
-        if qual == 'assemble' and name == 'path_or_source':
-            kinds.append('UserGiven')
-        if name in ('include_dirs',) or name.endswith('dirs'):
-            kinds.append('Dir')
-        for cfn, call in self.cg.call_sites().get(qual, []):
-            cq = [q for q, n in self.cg.funcs.items() if n is cfn][0]
-            if name in params:
-                idx = params.index(name)
-                if '.' in qual and qual.split('.')[0] in self.facts.classes and params and params[0] in ('self', 'cls'):
-                    idx -= 1      # bound call: Class(...) or obj.method(...)
-                arg = call.args[idx] if 0 <= idx < len(call.args) else next((k.value for k in call.keywords if k.arg == name), None)
-            else:
-                arg = next((k.value for k in call.keywords if k.arg == name), None)
-            if arg is not None:
-                kinds.append(self.kind(arg, cq))
-        self.busy.discard(key)
-        out = worst(kinds) if kinds else 'Unknown'
-        self.memo[key] = out
+    def params(self, fn):
+        a = fn.args
+        return [x.arg for x in getattr(a, 'posonlyargs', []) + a.args + a.kwonlyargs] + \
+               ([a.vararg.arg] if a.vararg else []) + ([a.kwarg.arg] if a.kwarg else [])
+
+    def _only_called(self, fn, name):
+        """Every read of the local / parameter `name` in `fn` is as the callee of a call."""
+        callee_ids = {id(n.func) for n in walk_fn(fn) if isinstance(n, ast.Call)}
+        return all(id(n) in callee_ids for n in walk_fn(fn) if isinstance(n, ast.Name) and n.id == name and isinstance(n.ctx, ast.Load))
+
+    def _ref_escapes(self, ref, q):
+        """A function name used as a value escapes unless the dataflow can follow it: a local alias that is only ever called, or an
+        argument for a parameter (of a repo function) that is only ever called."""
+        par = getattr(ref, '_parent', None)
+        fn = self.cg.funcs[q]
+        if isinstance(par, ast.Assign) and par.value is ref and len(par.targets) == 1 and isinstance(par.targets[0], ast.Name):
+            return not self._only_called(fn, par.targets[0].id)
+        call = par._parent if isinstance(par, ast.keyword) else par
+        if isinstance(call, ast.Call) and call.func is not ref:
+            callees = self.cg.callees(q, call)
+            if not callees or (dotted(call.func) in self.facts.classes):
+                return True
+            for c in callees:
+                for p, args in self.bind_call(c, call, q).items():
+                    if any(a is ref for a in args) and not self._only_called(self.cg.funcs[c], p):
+                        return True
+            return False
+        return True
+
+    def value_refs(self):
+        """{qualified function name: [referencing qual]} for functions whose *name is used as a value* in a way the dataflow cannot
+        follow (stored in a table, returned, passed to unknown code): such a function may be called from anywhere."""
+        if self._value_refs is None:
+            refs = {}
+            for q, fn in self.cg.funcs.items():
+                callee_names = set()
+                for n in walk_fn(fn):
+                    if isinstance(n, ast.Call) and isinstance(n.func, ast.Name):
+                        callee_names.add(id(n.func))
+                locals_ = self.cg.local_defs(q)
+                for n in walk_fn(fn):
+                    if isinstance(n, ast.Name) and isinstance(n.ctx, ast.Load) and id(n) not in callee_names:
+                        tgt = locals_.get(n.id) or (n.id if n.id in self.facts.funcs else None)
+                        if tgt and self._ref_escapes(n, q):
+                            refs.setdefault(tgt, []).append(q)
+            # module level: tables of functions, partials
+            for st in self.facts.tree.body:
+                if isinstance(st, (ast.FunctionDef, ast.ClassDef)):
+                    continue
+                callee_names = {id(n.func) for n in ast.walk(st) if isinstance(n, ast.Call) and isinstance(n.func, ast.Name)}
+                for n in ast.walk(st):
+                    if isinstance(n, ast.Name) and isinstance(n.ctx, ast.Load) and n.id in self.facts.funcs and id(n) not in callee_names:
+                        refs.setdefault(n.id, []).append('<module>')
+            self._value_refs = refs
+        return self._value_refs
+
+    def reach(self, entry, dynamic=True):
+        """Functions reachable from `entry`: call edges, nested closures, and functions referenced as values; with `dynamic`, a
+        method call on an object of unknown class may reach every repo method of that name (over-approximation)."""
+        memo = self.__dict__.setdefault('_reach_memo', {})
+        if (entry, dynamic) not in memo:
+            memo[(entry, dynamic)] = self._reach(entry, dynamic)
+        return memo[(entry, dynamic)]
+
+    def _reach(self, entry, dynamic):
+        seen = set()
+        todo = [entry]
+        while todo:
+            q = todo.pop()
+            if q in seen or q not in self.cg.funcs:
+                continue
+            seen.add(q)
+            fn = self.cg.funcs[q]
+            locals_ = self.cg.local_defs(q)
+            for n in walk_fn(fn):
+                if isinstance(n, ast.Call):
+                    todo.extend(self.callees(q, n))
+                    if dynamic and isinstance(n.func, ast.Attribute) and not (dotted(n.func) or '').startswith(('os.', 're.', 'struct.', 'copy.', 'sys.', 'log.', 'logging.')):
+                        # dynamic dispatch: any repo method of that name may be the target
+                        todo.extend(self.cg.methods_by_name.get(n.func.attr, []))
+                if isinstance(n, ast.Attribute) and isinstance(n.ctx, ast.Load) and isinstance(n.value, ast.Name) and n.value.id in self.facts.classes:
+                    todo.extend(self.cg.methods_by_name.get(n.attr, []))        # Cls.method used as a value
+                if isinstance(n, ast.Name) and isinstance(n.ctx, ast.Load):
+                    if n.id in locals_:
+                        todo.append(locals_[n.id])
+                    elif n.id in self.facts.funcs:
+                        todo.append(n.id)
+                    elif n.id in self.facts.tables or n.id in self.facts.consts or n.id in self.facts.assign_nodes:
+                        # module-level table of callables: its entries
+                        node = self.facts.assign_nodes.get(n.id)
+                        if node is not None:
+                            for m in ast.walk(node):
+                                if isinstance(m, ast.Name) and m.id in self.facts.funcs:
+                                    todo.append(m.id)
+            for cand, par in self.cg.parent.items():
+                if par == q:
+                    todo.append(cand)
+        return seen
+
+    # -- reaching definitions ---------------------------------------------------------------------------------------------
+    def all_defs(self, root, name):
+        """Every binding of `name` in the subtree (no kill): [(how, value node)]."""
+        out = []
+        for n in [root] + list(walk_no_nested(root)):
+            if isinstance(n, ast.Assign):
+                for t in n.targets:
+                    b = _bind(t, name)
+                    if b:
+                        out.append((b, n.value))
+            elif isinstance(n, ast.AugAssign):
+                if isinstance(n.target, ast.Name) and n.target.id == name:
+                    out.append((('aug',), n.value))
+            elif isinstance(n, (ast.For, ast.AsyncFor)):
+                b = _bind(n.target, name)
+                if b:
+                    out.append((('elem',) + b, n.iter))
+            elif isinstance(n, ast.withitem):
+                if n.optional_vars is not None and _bind(n.optional_vars, name):
+                    out.append((('ctx',), n.context_expr))
+            elif isinstance(n, ast.NamedExpr):
+                if isinstance(n.target, ast.Name) and n.target.id == name:
+                    out.append((('expr',), n.value))
+            elif isinstance(n, ast.ExceptHandler):
+                if n.name == name:
+                    out.append((('exc',), None))
+            elif isinstance(n, (ast.FunctionDef, ast.ClassDef)) and n is not root:
+                if n.name == name:
+                    out.append((('func',), n))
+            elif isinstance(n, (ast.Import, ast.ImportFrom)):
+                for al in n.names:
+                    if (al.asname or al.name.split('.')[0]) == name:
+                        out.append((('import',), None))
         return out
 
-    def attr_kind(self, attr):
-        """Kind of an object attribute = worst over all stores `<x>.attr = v` and constructor bindings self.attr = param."""
-        key = ('attr', attr)
-        if key in self.memo:
-            return self.memo[key]
-        if key in self.busy:
-            return 'NoneK'
-        self.busy.add(key)
-        kinds = []
-        for q, fn in self.cg.funcs.items():
-            for n in walk_no_nested(fn):
-                if isinstance(n, ast.Assign):
-                    for t in n.targets:
-                        if isinstance(t, ast.Attribute) and t.attr == attr:
-                            kinds.append(self.kind(n.value, q))
-        self.busy.discard(key)
-        out = worst(kinds) if kinds else 'Unknown'
-        self.memo[key] = out
+    def stmt_defs(self, st, name):
+        """(definitions of `name` that may flow out of the end of statement `st`, st definitely (re)binds name)."""
+        if isinstance(st, ast.Assign):
+            out = [(b, st.value) for b in (_bind(t, name) for t in st.targets) if b]
+            return out + self._walrus(st.value, name), bool(out)
+        if isinstance(st, ast.AugAssign):
+            if isinstance(st.target, ast.Name) and st.target.id == name:
+                return [(('aug',), st.value)], False
+            return [], False
+        if isinstance(st, (ast.For, ast.AsyncFor, ast.While)):
+            return self.all_defs(st, name), False
+        if isinstance(st, ast.If):
+            d1, m1 = self.block_defs(st.body, name)
+            d2, m2 = self.block_defs(st.orelse, name)
+            return d1 + d2 + self._walrus(st.test, name), m1 and m2
+        if isinstance(st, (ast.With, ast.AsyncWith)):
+            out = []
+            must = False
+            for it in st.items:
+                if it.optional_vars is not None and _bind(it.optional_vars, name):
+                    out.append((('ctx',), it.context_expr))
+                    must = True
+            d, m = self.block_defs(st.body, name)
+            if m:
+                return d, True
+            return out + d, must
+        if isinstance(st, ast.Try):
+            d, m = self.block_defs(st.body + st.orelse, name)
+            out = list(d)
+            ok = m
+            falls = [h for h in st.handlers if not _exits(h.body)]
+            if falls:
+                # the body ran partially before a handler that falls through
+                out += [x for x in self.all_defs(ast.Module(body=st.body, type_ignores=[]), name) if x not in out]
+            for h in st.handlers:
+                dh, mh = self.block_defs(h.body, name)
+                if h.name == name and not _exits(h.body):
+                    dh = dh + [(('exc',), None)]
+                out += dh
+                ok = ok and mh
+            df, mf = self.block_defs(st.finalbody, name) if st.finalbody else ([], False)
+            if mf:
+                return df, True
+            return out + df, ok
+        if isinstance(st, (ast.FunctionDef, ast.ClassDef)):
+            return ([(('func',), st)], True) if st.name == name else ([], False)
+        if isinstance(st, (ast.Import, ast.ImportFrom)):
+            for al in st.names:
+                if (al.asname or al.name.split('.')[0]) == name:
+                    return [(('import',), None)], True
+            return [], False
+        if isinstance(st, (ast.Expr, ast.Return, ast.Raise, ast.Assert, ast.Delete)):
+            return self._walrus(st, name), False
+        return [], False
+
+    def _walrus(self, node, name):
+        if node is None:
+            return []
+        return [(('expr',), n.value) for n in ast.walk(node) if isinstance(n, ast.NamedExpr) and isinstance(n.target, ast.Name) and n.target.id == name]
+
+    def block_defs(self, body, name):
+        if _exits(body):
+            return [], True           # nothing flows out of the end of this block
+        defs, must = [], False
+        for st in body:
+            d, m = self.stmt_defs(st, name)
+            if m:
+                defs, must = list(d), True
+            else:
+                defs += d
+        return defs, must
+
+    def reaching(self, qual, node):
+        """Definitions of the variable that may reach the use `node` (an ast.Name in function `qual`):
+        [(how, value node)] with how[0] in expr | unpack | elem | ctx | aug | param | free | func | exc | import | lambda."""
+        name = node.id
+        fn = self.fn_of(qual)
+        out = []
+        cur = node
+        while cur is not fn:
+            par = getattr(cur, '_parent', None)
+            if par is None:
+                break
+            if isinstance(par, (ast.ListComp, ast.SetComp, ast.GeneratorExp, ast.DictComp)):
+                gens = par.generators
+                upto = gens.index(cur) if cur in gens else len(gens)
+                for g in reversed(gens[:upto]):
+                    b = _bind(g.target, name)
+                    if b:
+                        return out + [(('elem',) + b, g.iter)]
+            elif isinstance(par, ast.comprehension):
+                if cur is not par.iter:
+                    b = _bind(par.target, name)
+                    if b:
+                        return out + [(('elem',) + b, par.iter)]
+            elif isinstance(par, ast.Lambda):
+                a = par.args
+                if name in [x.arg for x in a.args + a.kwonlyargs] + ([a.vararg.arg] if a.vararg else []) + ([a.kwarg.arg] if a.kwarg else []):
+                    return out + [(('lambda',), None)]
+            elif isinstance(par, ast.While) and cur is par.test:
+                out += self.all_defs(par, name)
+            if isinstance(cur, ast.stmt):
+                lst = None
+                for field in ('body', 'orelse', 'finalbody'):
+                    cand = getattr(par, field, None)
+                    if isinstance(cand, list) and any(c is cur for c in cand):
+                        lst = cand
+                        where = field
+                        break
+                if lst is not None:
+                    idx = [i for i, c in enumerate(lst) if c is cur][0]
+                    for prev in reversed(lst[:idx]):
+                        d, m = self.stmt_defs(prev, name)
+                        out += d
+                        if m:
+                            return out
+                    if isinstance(par, (ast.For, ast.AsyncFor)) and where == 'body':
+                        b = _bind(par.target, name)
+                        if b:
+                            return out + [(('elem',) + b, par.iter)]
+                        out += self.all_defs(par, name)
+                    elif isinstance(par, ast.While) and where == 'body':
+                        out += self.all_defs(par, name)
+                    elif isinstance(par, (ast.With, ast.AsyncWith)) and where == 'body':
+                        for it in par.items:
+                            if it.optional_vars is not None and _bind(it.optional_vars, name):
+                                return out + [(('ctx',), it.context_expr)]
+                    elif isinstance(par, ast.ExceptHandler):
+                        if par.name == name:
+                            return out + [(('exc',), None)]
+                    elif isinstance(par, ast.Try) and where in ('orelse', 'finalbody'):
+                        out += self.all_defs(ast.Module(body=par.body, type_ignores=[]), name)
+                        if where == 'finalbody':
+                            for h in par.handlers:
+                                out += self.all_defs(h, name)
+                            out += self.all_defs(ast.Module(body=par.orelse, type_ignores=[]), name)
+            elif isinstance(cur, ast.ExceptHandler) and isinstance(par, ast.Try):
+                # the try body ran partially
+                out += self.all_defs(ast.Module(body=par.body, type_ignores=[]), name)
+            cur = par
+        if name in self.params(fn):
+            out.append((('param',), None))
+        elif not out:
+            out.append((('free',), None))
         return out
+
+    # -- call binding -----------------------------------------------------------------------------------------------------
+    def dict_entries(self, node, qual, depth=0):
+        """{constant key: value node} of a dict-valued expression that the dataflow can open up (a literal, dict(k=v), a local
+        bound to one and not modified afterwards), or None."""
+        if isinstance(node, ast.Dict):
+            out = {}
+            for k, v in zip(node.keys, node.values):
+                if k is None:
+                    inner = self.dict_entries(v, qual, depth + 1)
+                    if inner is None:
+                        return None
+                    out.update(inner)
+                elif isinstance(k, ast.Constant) and isinstance(k.value, str):
+                    out[k.value] = v
+                else:
+                    return None
+            return out
+        if isinstance(node, ast.Call) and dotted(node.func) == 'dict' and not node.args and all(k.arg is not None for k in node.keywords):
+            return {k.arg: k.value for k in node.keywords}
+        if isinstance(node, ast.Name) and qual is not None and depth < 4:
+            defs = self.reaching(qual, node)
+            if len(defs) == 1 and defs[0][0][0] == 'expr':
+                fn = self.fn_of(qual)
+                for n in walk_fn(fn):
+                    # the dict must not be changed between its definition and the call
+                    if isinstance(n, ast.Subscript) and isinstance(n.ctx, (ast.Store, ast.Del)) and isinstance(n.value, ast.Name) and n.value.id == node.id:
+                        return None
+                    if isinstance(n, ast.Call) and isinstance(n.func, ast.Attribute) and isinstance(n.func.value, ast.Name) and n.func.value.id == node.id \
+                            and n.func.attr in ('update', 'pop', 'setdefault', 'clear', 'popitem'):
+                        return None
+                return self.dict_entries(defs[0][1], qual, depth + 1)
+        return None
+
+    def bind_call(self, callee, call, caller=None):
+        """{parameter name: [argument nodes]} for a call of the repo function `callee` (bound calls skip self).  `**options` is
+        opened up when the dataflow can see the dict (in function `caller`); otherwise every parameter may receive it and the key
+        '**' is set."""
+        fn = self.fn_of(callee)
+        a = fn.args
+        pos = [x.arg for x in getattr(a, 'posonlyargs', []) + a.args]
+        if '.' in callee and callee.split('.')[0] in self.facts.classes and pos and pos[0] in ('self', 'cls'):
+            pos = pos[1:]
+        out = {}
+        i = 0
+        for arg in call.args:
+            if isinstance(arg, ast.Starred):
+                for p in pos[i:]:
+                    out.setdefault(p, []).append(arg.value)
+                if a.vararg:
+                    out.setdefault(a.vararg.arg, []).append(arg.value)
+                i = len(pos)
+                continue
+            if i < len(pos):
+                out.setdefault(pos[i], []).append(arg)
+            elif a.vararg:
+                out.setdefault(a.vararg.arg, []).append(arg)
+            i += 1
+        names = set(pos) | {x.arg for x in a.kwonlyargs}
+        for kw in call.keywords:
+            if kw.arg is None:
+                entries = self.dict_entries(kw.value, caller)
+                if entries is None:
+                    out.setdefault('**', []).append(kw.value)
+                    for p in names:
+                        out.setdefault(p, []).append(kw.value)
+                else:
+                    for k, v in entries.items():
+                        if k in names:
+                            out.setdefault(k, []).append(v)
+                        elif a.kwarg:
+                            out.setdefault(a.kwarg.arg, []).append(v)
+            elif kw.arg in names:
+                out.setdefault(kw.arg, []).append(kw.value)
+            elif a.kwarg:
+                out.setdefault(a.kwarg.arg, []).append(kw.value)
+        return out
+
+    def default_of(self, fn, name):
+        a = fn.args
+        pos = [x.arg for x in getattr(a, 'posonlyargs', []) + a.args]
+        defaults = dict(zip(pos[len(pos) - len(a.defaults):], a.defaults))
+        for x, d in zip(a.kwonlyargs, a.kw_defaults):
+            if d is not None:
+                defaults[x.arg] = d
+        return defaults.get(name)
+
+    def function_values(self, node, qual, _depth=0):
+        """Qualified names of the repo functions an expression may denote (a function name, a local alias of one, a parameter
+        that receives one at some call site), or [] when it is not (only) a function value."""
+        if _depth > 4 or not isinstance(node, ast.Name) or qual is None:
+            return []
+        locals_ = self.cg.local_defs(qual)
+        out = []
+        for how, v in self.reaching(qual, node):
+            if how[0] == 'func':
+                q = locals_.get(node.id)
+                if q:
+                    out.append(q)
+            elif how[0] == 'expr':
+                r = self.function_values(v, qual, _depth + 1)
+                if not r:
+                    return []
+                out += r
+            elif how[0] == 'free':
+                if node.id in locals_:
+                    out.append(locals_[node.id])
+                elif node.id in self.facts.funcs:
+                    out.append(node.id)
+                else:
+                    return []
+            elif how[0] == 'param':
+                for cq, call in self.call_sites_of(qual, direct_only=True):
+                    for arg in self.bind_call(qual, call, cq).get(node.id, []):
+                        out += self.function_values(arg, cq, _depth + 1)
+            else:
+                return []
+        return sorted(set(out))
+
+    def class_of(self, node, qual, depth=0):
+        """Name of the repo class an expression evidently is an instance of (or, for a class name, the class itself), else None."""
+        if isinstance(node, ast.Call) and dotted(node.func) in self.facts.classes:
+            return dotted(node.func)
+        if isinstance(node, ast.Name):
+            if node.id in self.facts.classes:
+                return node.id
+            fn = self.cg.funcs.get(qual)
+            if fn is not None and '.' in qual and qual.split('.')[0] in self.facts.classes and fn.args.args and fn.args.args[0].arg == node.id \
+                    and not any(getattr(d, 'id', None) == 'staticmethod' for d in fn.decorator_list):
+                return qual.split('.')[0]
+            if depth < 3:
+                defs = self.reaching(qual, node)
+                classes = {self.class_of(v, qual, depth + 1) if h[0] == 'expr' else None for h, v in defs}
+                if len(classes) == 1:
+                    return next(iter(classes))
+        return None
+
+    def callees(self, qual, call):
+        """Repo functions a call may reach: the call graph's resolution, plus calls through a local alias of a function or
+        through a function-valued parameter."""
+        out = list(self.cg.callees(qual, call)) if qual is not None else []
+        f = call.func
+        if qual is not None and isinstance(f, ast.Attribute):
+            # x.m(...) where the class of x is evident: self / cls in a method, a class name, a fresh Cls(...), a local bound to one
+            target = self.class_of(f.value, qual)
+            if target:
+                owner, m = self.facts.method(target, f.attr)
+                if m is not None and '{}.{}'.format(owner, f.attr) in self.cg.funcs:
+                    return ['{}.{}'.format(owner, f.attr)]
+        if not out and qual is not None and isinstance(call.func, ast.Name):
+            key = (qual, id(call))
+            memo = self.__dict__.setdefault('_callee_memo', {})
+            if key not in memo:
+                memo[key] = []           # cut cycles
+                memo[key] = self.function_values(call.func, qual)
+            out = memo[key]
+        return out
+
+    def call_sites_of(self, qual, direct_only=False):
+        """[(caller qual, Call)]"""
+        out = []
+        for cfn, call in self.cg.call_sites().get(qual, []):
+            out.append((self.qual_of[id(cfn)], call))
+        if direct_only:
+            return out
+        if '_indirect' not in self.__dict__:
+            self._indirect = {}
+            for cq, cfn in self.cg.funcs.items():
+                for n in walk_fn(cfn):
+                    if isinstance(n, ast.Call):
+                        known = self.cg.callees(cq, n)
+                        for q in self.callees(cq, n):
+                            if q not in known:
+                                self._indirect.setdefault(q, []).append((cq, n))
+        return out + self._indirect.get(qual, [])
+
+    def namedtuples(self):
+        """{factory name: [field names]} for module-level `X = namedtuple('X', 'a b c')` / NamedTuple('X', [('a', T), ...])."""
+        if '_nt' not in self.__dict__:
+            out = {}
+            for name, node in self.facts.assign_nodes.items():
+                v = node.value
+                if isinstance(v, ast.Call) and dotted(v.func) in ('namedtuple', 'collections.namedtuple', 'NamedTuple', 'typing.NamedTuple') and len(v.args) >= 2:
+                    spec = v.args[1]
+                    fields = None
+                    if isinstance(spec, ast.Constant) and isinstance(spec.value, str):
+                        fields = spec.value.replace(',', ' ').split()
+                    elif isinstance(spec, (ast.List, ast.Tuple)):
+                        fields = []
+                        for e in spec.elts:
+                            if isinstance(e, ast.Constant) and isinstance(e.value, str):
+                                fields.append(e.value)
+                            elif isinstance(e, ast.Tuple) and e.elts and isinstance(e.elts[0], ast.Constant):
+                                fields.append(e.elts[0].value)
+                            else:
+                                fields = None
+                                break
+                    if fields:
+                        out[name] = fields
+            self._nt = out
+        return self._nt
+
+    def namedtuple_fields(self, call):
+        """{field index: value node} of a namedtuple construction, or None."""
+        d = dotted(call.func) if isinstance(call, ast.Call) else None
+        fields = self.namedtuples().get(d)
+        if fields is None or any(isinstance(a, ast.Starred) for a in call.args) or any(k.arg is None for k in call.keywords):
+            return None
+        out = {i: a for i, a in enumerate(call.args)}
+        for k in call.keywords:
+            if k.arg in fields:
+                out[fields.index(k.arg)] = k.value
+        return out if len(out) == len(fields) else None
+
+    def attr_stores(self):
+        """{attribute name: [(qual, stored value node)]} over the whole program (`x.a = v`, `setattr(x, 'a', v)`, fields of
+        namedtuple constructions)."""
+        if '_stores' not in self.__dict__:
+            st = {}
+            for q, fn in self.cg.funcs.items():
+                for n in walk_fn(fn):
+                    nf = self.namedtuple_fields(n) if isinstance(n, ast.Call) else None
+                    if nf:
+                        names = self.namedtuples()[dotted(n.func)]
+                        for i, v in nf.items():
+                            self.__dict__.setdefault('_nt_stores', {}).setdefault((dotted(n.func), names[i]), []).append((q, v))
+            for q, fn in self.cg.funcs.items():
+                for n in walk_no_nested(fn):
+                    if isinstance(n, ast.Assign):
+                        for t in n.targets:
+                            if isinstance(t, ast.Attribute):
+                                st.setdefault(t.attr, []).append((q, n.value))
+                    elif isinstance(n, ast.Call) and dotted(n.func) == 'setattr' and len(n.args) == 3 \
+                            and isinstance(n.args[1], ast.Constant) and isinstance(n.args[1].value, str):
+                        st.setdefault(n.args[1].value, []).append((q, n.args[2]))
+            self._stores = st
+        return self._stores
+
+    # -- summaries (least fixed point) -----------------------------------------------------------------------------------------
+    def summary(self, key):
+        if key not in self.tab:
+            self.tab[key] = self.seeds.get(key, EMPTY)
+            self._grew = True
+        return self.tab[key]
+
+    def compute(self, key):
+        if key[0] == 'param':
+            _, qual, name = key
+            fn = self.fn_of(qual)
+            if key in self.seeds:
+                return self.seeds[key]      # the role of an entry point's parameter is given by the API, whoever calls it
+            out = set()
+            sites = self.call_sites_of(qual)
+            for cq, call in sites:
+                bound = self.bind_call(qual, call, cq)
+                if name in bound:
+                    for arg in bound[name]:
+                        out |= self._kinds(arg, cq)
+                else:
+                    d = self.default_of(fn, name)
+                    if d is not None:
+                        out |= self._kinds(d, qual)
+            if (qual in self.value_refs() or (not sites and key not in self.seeds)) and not (name in ('self', 'cls') and '.' in qual):
+                out.add('Unknown')     # called through a value / from outside: anything may arrive
+            # `Cls(*vars(obj).values())` re-binds every attribute to the same attribute of an existing object: nothing new
+            out.discard('ObjAttrs')
+            return frozenset(out)
+        if key[0] == 'ntattr':
+            self.attr_stores()
+            out = set()
+            for q, v in self.__dict__.get('_nt_stores', {}).get((key[1], key[2]), []):
+                out |= self._kinds(v, q)
+            return frozenset(out)
+        if key[0] == 'attr':
+            out = set()
+            stores = self.attr_stores().get(key[1], [])
+            for q, v in stores:
+                out |= self._kinds(v, q)
+            return frozenset(out) if stores else UNKNOWN
+        if key[0] == 'ret':
+            _, qual, idx = key
+            fn = self.fn_of(qual)
+            out = set()
+            for n in walk_no_nested(fn):
+                if isinstance(n, (ast.Yield, ast.YieldFrom)) and n.value is not None and not self._in_lambda(n, fn):
+                    out |= self._kinds(n.value, qual)          # a generator "returns" what it yields
+                if isinstance(n, ast.Return) and n.value is not None:
+                    v = n.value
+                    nf = self.namedtuple_fields(v) if idx is not None else None
+                    if idx is not None and isinstance(v, (ast.Tuple, ast.List)) and idx[0] < len(v.elts) and len(v.elts) == idx[1] \
+                            and not any(isinstance(e, ast.Starred) for e in v.elts):
+                        out |= self._kinds(v.elts[idx[0]], qual)
+                    elif nf is not None and len(nf) == idx[1]:
+                        out |= self._kinds(nf[idx[0]], qual)
+                    else:
+                        out |= self._kinds(v, qual)
+            return frozenset(out)
+        raise AnalysisError('prov: unknown summary key {}'.format(key))
+
+    def _in_lambda(self, node, fn):
+        p = getattr(node, '_parent', None)
+        while p is not None and p is not fn:
+            if isinstance(p, ast.Lambda):
+                return True
+            p = getattr(p, '_parent', None)
+        return False
+
+    def solve(self):
+        for _ in range(200):
+            changed = False
+            n_keys = len(self.tab)
+            for key in list(self.tab):
+                new = self.compute(key) | self.tab[key]
+                if new != self.tab[key]:
+                    self.tab[key] = new
+                    changed = True
+                    self.memo.clear()
+            if not changed and len(self.tab) == n_keys:
+                return
+        raise AnalysisError('prov: summaries did not converge')
+
+    # -- the public queries ---------------------------------------------------------------------------------------------------
+    def kinds(self, node, qual):
+        """Set of kinds of an expression evaluated in function `qual`."""
+        for _ in range(50):
+            n0 = len(self.tab)
+            self._kinds(node, qual)
+            self.solve()
+            if len(self.tab) == n0:
+                break
+        return frozenset(k for k in self._kinds(node, qual) if not k.startswith('NT:'))
 
     def kind(self, node, qual):
-        if isinstance(node, ast.Name):
-            key = ('name', qual, node.id)
-            if key in self.busy:
-                return 'NoneK'       # self-referential definition (x = x.strip()): neutral element
-            self.busy.add(key)
-            try:
-                return self._kind(node, qual)
-            finally:
-                self.busy.discard(key)
-        return self._kind(node, qual)
+        return coarse(self.kinds(node, qual))
 
-    def _kind(self, node, qual):
+    def param_kinds(self, qual, name):
+        self.summary(('param', qual, name))
+        self.solve()
+        # solving may demand further summaries
+        for _ in range(50):
+            n0 = len(self.tab)
+            self.solve()
+            if len(self.tab) == n0:
+                break
+        return frozenset(k for k in self.tab[('param', qual, name)] if not k.startswith('NT:'))
+
+    def _kinds(self, node, qual):
+        key = (id(node), qual)
+        if key in self.memo:
+            return self.memo[key]
+        if key in self.busy:
+            self.cuts += 1
+            return EMPTY
+        self.busy.add(key)
+        c0 = self.cuts
+        try:
+            out = frozenset(self._eval(node, qual))
+        finally:
+            self.busy.discard(key)
+        if self.cuts == c0:
+            self.memo[key] = out
+        return out
+
+    def _name(self, node, qual):
+        name = node.id
+        if name == '__file__':
+            return {'Resolved'}
+        if name in ('True', 'False', 'None'):
+            return {'NoneK'}
+        if qual is None:
+            st = self.facts.assign_nodes.get(name)
+            if st is not None:
+                return set(self._kinds(st.value, None))
+            return {'Unknown'}
         fn = self.fn_of(qual)
-        if isinstance(node, ast.Constant):
-            return 'NoneK' if node.value is None else ('RawToken' if isinstance(node.value, str) and node.value not in ('<string>',) else 'NoneK')
-        if isinstance(node, ast.Name):
-            params = [a.arg for a in fn.args.args + fn.args.kwonlyargs]
-            defs = []
-            for n in walk_no_nested(fn):
-                if isinstance(n, ast.Assign):
-                    for t in n.targets:
-                        if isinstance(t, ast.Name) and t.id == node.id:
-                            defs.append(('expr', n.value))
-                        if isinstance(t, ast.Tuple):
-                            for e in t.elts:
-                                e2 = e.value if isinstance(e, ast.Starred) else e
-                                if isinstance(e2, ast.Name) and e2.id == node.id:
-                                    defs.append(('unpack', n.value))
-                if isinstance(n, ast.For) and isinstance(n.target, ast.Name) and n.target.id == node.id:
-                    defs.append(('elem', n.iter))
-                if isinstance(n, ast.withitem) and isinstance(n.optional_vars, ast.Name) and n.optional_vars.id == node.id:
-                    defs.append(('expr', n.context_expr))
-            kinds = []
-            if node.id in params and not defs:
-                return self.param_kind(qual, node.id)
-            if node.id in params:
-                kinds.append(self.param_kind(qual, node.id))
-            if not defs and node.id not in params:
-                # closure variable of the enclosing function
-                par = self.cg.parent.get(qual)
-                if par:
-                    return self.kind(node, par)
-                return 'Unknown'
-            for how, v in defs:
-                if how == 'expr':
-                    kinds.append(self.kind(v, qual))
-                elif how == 'elem':
-                    k = self.kind(v, qual)
-                    kinds.append(k)
-                else:
-                    # tuple unpack of tokens / split(): source text
-                    text = unparse(v)
-                    if 'tokens' in text or '.split' in text:
-                        kinds.append('RawToken')
-                    else:
-                        kinds.append(self.kind(v, qual))
-            return worst(kinds)
-        if isinstance(node, ast.Attribute):
-            if isinstance(node.value, ast.Name) and node.value.id in ('args',):
-                return 'UserGiven'
-            return self.attr_kind(node.attr)
-        if isinstance(node, ast.Call):
-            d = dotted(node.func)
-            if d == 'os.path.join' and node.args:
-                first = self.kind(node.args[0], qual)
-                if first in ('Dir', 'Resolved'):
-                    return 'Resolved'
-                return worst([first] + [self.kind(a, qual) for a in node.args[1:]])
-            if d in ('list', 'tuple', 'sorted', 'set', 'frozenset', 'reversed') and node.args:
-                return self.kind(node.args[0], qual)
-            if d in ('os.path.abspath', 'os.path.normpath', 'os.path.realpath', 'str', 'os.fspath'):
-                return self.kind(node.args[0], qual) if node.args else 'Unknown'
-            if d == 'os.path.dirname' and node.args:
-                k = self.kind(node.args[0], qual)
-                return 'Dir' if k in ('Resolved', 'UserGiven', 'Dir') else k
-            if d == 'os.getcwd':
-                return 'Dir'
-            if d == 'copy.deepcopy' and node.args:
-                return self.kind(node.args[0], qual)
-            if isinstance(node.func, ast.Attribute) and node.func.attr in ('strip', 'lower', 'rstrip', 'lstrip', 'format'):
-                if node.func.attr == 'format':
-                    return worst([self.kind(a, qual) for a in node.args] or ['RawToken'])
-                return self.kind(node.func.value, qual)
-            # local closure / repo function: kind of its returned expressions
-            for callee in self.cg.callees(qual, node):
-                cfn = self.cg.funcs[callee]
-                rets = [n.value for n in walk_no_nested(cfn) if isinstance(n, ast.Return) and n.value is not None]
-                if rets:
-                    return worst([self.kind(r, callee) for r in rets])
-            if d in self.facts.classes if d else False:
-                return 'Unknown'
-            return 'Unknown'
-        if isinstance(node, ast.BoolOp):
-            return worst([self.kind(v, qual) for v in node.values])
-        if isinstance(node, ast.IfExp):
-            return worst([self.kind(node.body, qual), self.kind(node.orelse, qual)])
-        if isinstance(node, ast.List):
-            return worst([self.kind(e, qual) for e in node.elts] or ['NoneK'])
-        if isinstance(node, ast.BinOp) and isinstance(node.op, ast.Add):
-            return worst([self.kind(node.left, qual), self.kind(node.right, qual)])
-        if isinstance(node, ast.Subscript):
-            text = unparse(node.value)
-            if 'tokens' in text:
-                return 'RawToken'
-            return self.kind(node.value, qual)
-        return 'Unknown'
+        out = set()
+        defs = self.reaching(qual, node)
+        for how, v in defs:
+            out |= self._def_kinds(how, v, qual, name)
+        # in-place growth of a list held in this variable (the attribute dict of an existing object is not a list of paths:
+        # the fields the rebuild idiom replaces are register / immediate fields, see the rebuild invariant of C01)
+        if not all(how[0] in ('free',) for how, _ in defs) and 'ObjAttrs' not in out:
+            out |= self._mutation_kinds(fn, name, qual)
+        return out
 
+    def growth_sites(self, fn, name):
+        """[('elem' | 'list', expression)] added in place to the local `name` of `fn`: x.append(v), x.add(v), x.insert(i, v) add
+        one element; x.extend(w), x.update(w) add the elements of w."""
+        idx = self.__dict__.setdefault('_growth', {})
+        if id(fn) not in idx:
+            tab = {}
+            for n in walk_fn(fn):
+                if isinstance(n, ast.Call) and isinstance(n.func, ast.Attribute) and isinstance(n.func.value, ast.Name):
+                    if n.func.attr in ('append', 'add') and n.args:
+                        tab.setdefault(n.func.value.id, []).append(('elem', n.args[0]))
+                    elif n.func.attr in ('extend', 'update') and n.args:
+                        tab.setdefault(n.func.value.id, []).append(('list', n.args[0]))
+                    elif n.func.attr == 'insert' and len(n.args) > 1:
+                        tab.setdefault(n.func.value.id, []).append(('elem', n.args[1]))
+            idx[id(fn)] = tab
+        return idx[id(fn)].get(name, [])
+
+    def _mutation_kinds(self, fn, name, qual):
+        out = set()
+        for _, v in self.growth_sites(fn, name):
+            out |= self._kinds(v, qual)
+        return out
+
+    def _def_kinds(self, how, v, qual, name):
+        h = how[0]
+        if h == 'expr' or h == 'aug' or h == 'ctx':
+            return set(self._kinds(v, qual))
+        if h == 'param':
+            return set(self.summary(('param', qual, name)))
+        if h == 'free':
+            par = self.cg.parent.get(qual)
+            while par:
+                pfn = self.fn_of(par)
+                defs = self.all_defs(pfn, name)
+                if defs or name in self.params(pfn):
+                    out = set()
+                    for how2, v2 in defs:
+                        out |= self._def_kinds(how2, v2, par, name)
+                    if name in self.params(pfn):
+                        out |= self.summary(('param', par, name))
+                    out |= self._mutation_kinds(pfn, name, par)
+                    return out
+                par = self.cg.parent.get(par)
+            st = self.facts.assign_nodes.get(name)
+            if st is not None:
+                return set(self._kinds(st.value, None))
+            return {'Unknown'}
+        if h == 'unpack':
+            return self._unpack_kinds(v, how[1], how[2], how[3], qual)
+        if h == 'elem':
+            # element of the iterable, possibly unpacked further
+            if len(how) > 2 and how[1] == 'unpack':
+                return self._elem_unpack_kinds(v, how[2], how[3], how[4], qual)
+            return set(self._kinds(v, qual))
+        return {'Unknown'}     # func / exc / import / lambda
+
+    def _unpack_kinds(self, v, i, n, starred, qual):
+        if isinstance(v, (ast.Tuple, ast.List)) and len(v.elts) == n and not starred and not any(isinstance(e, ast.Starred) for e in v.elts):
+            return set(self._kinds(v.elts[i], qual))
+        if isinstance(v, ast.Call) and qual is not None and not starred:
+            callees = self.callees(qual, v)
+            if callees:
+                out = set()
+                for c in callees:
+                    out |= self.summary(('ret', c, (i, n)))
+                return out
+        return set(self._kinds(v, qual))
+
+    def _elem_unpack_kinds(self, it, i, n, starred, qual):
+        if isinstance(it, ast.Call):
+            d = dotted(it.func)
+            if d == 'enumerate' and it.args and n == 2:
+                return {'NoneK'} if i == 0 else set(self._kinds(it.args[0], qual))
+            if d == 'zip' and len(it.args) == n and not starred:
+                return set(self._kinds(it.args[i], qual))
+        return set(self._kinds(it, qual))
+
+    def _eval(self, node, qual):
+        if node is None:
+            return {'NoneK'}
+        if isinstance(node, ast.Constant):
+            if isinstance(node.value, str):
+                return {'Literal'}
+            return {'NoneK'}
+        if isinstance(node, ast.Name):
+            return self._name(node, qual)
+        if isinstance(node, ast.Attribute):
+            d = dotted(node)
+            if d == 'sys.argv':
+                return {'UserGiven'}
+            if d in ('os.curdir', 'os.pardir', 'os.sep'):
+                return {'Literal'}
+            if node.attr == '__dict__':
+                return {'ObjAttrs'}
+            if node.attr == 'parent' and not self.attr_stores().get('parent'):
+                return self._dirname_kinds(node.value, qual)               # pathlib
+            base = self._kinds(node.value, qual)
+            if 'CliArgs' in base:
+                return {'UserGiven'} | ({'Unknown'} if base - {'CliArgs', 'NoneK'} else set())
+            # fields of a namedtuple are read only from values that may be that namedtuple (the tag travels with the value)
+            tags = [k[3:] for k in base if k.startswith('NT:')]
+            out = set()
+            for t in tags:
+                if node.attr in self.namedtuples().get(t, []):
+                    out |= self.summary(('ntattr', t, node.attr))
+            if not out or self.attr_stores().get(node.attr) or not tags:
+                out |= self.summary(('attr', node.attr))
+            return out
+        if isinstance(node, ast.Call):
+            return self._call(node, qual)
+        if isinstance(node, ast.BoolOp):
+            out = set()
+            for v in node.values:
+                out |= self._kinds(v, qual)
+            return out
+        if isinstance(node, ast.IfExp):
+            return set(self._kinds(node.body, qual)) | self._kinds(node.orelse, qual)
+        if isinstance(node, (ast.List, ast.Tuple, ast.Set)):
+            out = {'NoneK'}
+            for e in node.elts:
+                out |= self._kinds(e, qual)
+            return out
+        if isinstance(node, ast.Dict):
+            out = {'NoneK'}
+            for e in node.values:
+                out |= self._kinds(e, qual)
+            return out
+        if isinstance(node, ast.Starred):
+            return set(self._kinds(node.value, qual))
+        if isinstance(node, ast.NamedExpr):
+            return set(self._kinds(node.value, qual))
+        if isinstance(node, ast.BinOp) and isinstance(node.op, ast.Add):
+            parts = []
+            cur = node
+            while isinstance(cur, ast.BinOp) and isinstance(cur.op, ast.Add):
+                parts.insert(0, cur.right)
+                cur = cur.left
+            parts.insert(0, cur)
+            ks = [self._kinds(p, qual) for p in parts]
+            if any(isinstance(p, ast.Constant) and isinstance(p.value, str) for p in parts):
+                # string concatenation `dir + '/' + name` behaves like a join
+                first = ks[0] - {'NoneK'}
+                if first and first <= (DIRKINDS | {'Resolved'}):
+                    return {'Resolved'}
+            out = set()
+            for k in ks:
+                out |= k
+            return out
+        if isinstance(node, ast.BinOp) and isinstance(node.op, ast.Div):
+            return self._join_kinds([node.left, node.right], qual)        # pathlib: directory / name
+        if isinstance(node, ast.BinOp) and isinstance(node.op, ast.Mod):
+            out = set(self._kinds(node.right, qual))
+            return out or {'Literal'}
+        if isinstance(node, ast.JoinedStr):
+            out = set()
+            for v in node.values:
+                if isinstance(v, ast.FormattedValue):
+                    out |= self._kinds(v.value, qual)
+            return out or {'Literal'}
+        if isinstance(node, ast.Subscript):
+            return set(self._kinds(node.value, qual))
+        if isinstance(node, (ast.ListComp, ast.SetComp, ast.GeneratorExp)):
+            return set(self._kinds(node.elt, qual)) | {'NoneK'}
+        if isinstance(node, ast.DictComp):
+            return set(self._kinds(node.value, qual)) | {'NoneK'}
+        if isinstance(node, (ast.Compare, ast.UnaryOp)):
+            return {'NoneK'}
+        if isinstance(node, ast.BinOp):
+            return {'NoneK'} if not any(isinstance(n, (ast.Name, ast.Attribute, ast.Call)) for n in ast.walk(node)) else {'Unknown'}
+        return {'Unknown'}
+
+    def _call(self, node, qual):
+        d = dotted(node.func)
+        if is_cwd_expr(node):
+            return {'CwdDir'}
+        if d in PATH_CTORS and node.args:
+            if len(node.args) == 1:
+                return set(self._kinds(node.args[0], qual))
+            return self._join_kinds(node.args, qual)
+        if d == 'map' and len(node.args) == 2 and dotted(node.args[0]) in PASS_CALLS:
+            return set(self._kinds(node.args[1], qual))
+        if isinstance(node.func, ast.Attribute) and not (d or '').startswith(('os.', 're.', 'struct.', 'copy.', 'sys.')):
+            if node.func.attr in PATH_KEEP_METHODS and not self.attr_stores().get(node.func.attr):
+                return set(self._kinds(node.func.value, qual))
+            if node.func.attr == 'joinpath' and node.args:
+                return self._join_kinds([node.func.value] + list(node.args), qual)
+        if d == 'os.path.join' and node.args:
+            return self._join_kinds(node.args, qual)
+        if d in PASS_CALLS:
+            if not node.args:
+                return {'NoneK'}
+            return set(self._kinds(node.args[0], qual))
+        if d == 'os.path.dirname' and node.args:
+            return self._dirname_kinds(node.args[0], qual)
+        if d == 'vars' and node.args:
+            return {'ObjAttrs'}
+        if d in self.namedtuples():
+            out = {'NoneK', 'NT:' + d}
+            for a in list(node.args) + [k.value for k in node.keywords]:
+                out |= self._kinds(a, qual)
+            return out
+        if d == 'getattr' and len(node.args) >= 2 and isinstance(node.args[1], ast.Constant) and isinstance(node.args[1].value, str):
+            out = set(self.summary(('attr', node.args[1].value)))
+            for a in node.args[2:]:
+                out |= self._kinds(a, qual)
+            return out
+        if d in ('enumerate', 'zip', 'filter'):
+            out = set()
+            for a in (node.args[-1:] if d == 'filter' else node.args[:1] if d == 'enumerate' else node.args):
+                out |= self._kinds(a, qual)
+            return out
+        if d in ('len', 'int', 'bool', 'float', 'ord', 'isinstance', 'os.path.getsize', 'os.path.exists', 'os.path.isdir', 'os.path.isfile',
+                 'struct.calcsize', 'id', 'hash', 'abs', 'min', 'max', 'sum', 'any', 'all', 'range', 'type'):
+            return {'NoneK'}
+        if d and (d.startswith('re.') or d in ('input',)):
+            return {'RawToken'}
+        if isinstance(node.func, ast.Attribute):
+            attr = node.func.attr
+            if attr == 'parse_args' or attr == 'parse_known_args':
+                return {'CliArgs'}
+            if attr in ('format', 'format_map'):
+                out = set()
+                for a in list(node.args) + [k.value for k in node.keywords]:
+                    out |= self._kinds(a, qual)
+                return (out - {'NoneK'}) or {'Literal'}
+            if attr == 'join' and node.args and not (d or '').startswith('os.'):
+                return set(self._kinds(node.args[0], qual))
+            if attr in CUT_METHODS and not (d or '').startswith(('os.', 'struct.', 'copy.')):
+                return {'RawToken'}
+            if attr in KEEP_METHODS:
+                return set(self._kinds(node.func.value, qual))
+            if attr in ('get', 'pop', 'setdefault') and not (d or '').startswith('os.'):
+                out = set(self._kinds(node.func.value, qual))
+                for a in node.args[1:]:
+                    out |= self._kinds(a, qual)
+                return out
+            if attr in ('items', 'values', 'keys'):
+                return set(self._kinds(node.func.value, qual))
+        if qual is not None:
+            callees = self.callees(qual, node)
+            if callees:
+                if d in self.facts.classes:
+                    return {'Unknown'}           # a freshly built object
+                out = set()
+                for c in callees:
+                    out |= self.summary(('ret', c, None))
+                return out
+        return {'Unknown'}
+
+    def _join_kinds(self, parts, qual):
+        """join(first, ...): a directory joined with a name is Resolved; otherwise the result lies wherever its first component lies."""
+        if any(isinstance(a, ast.Starred) for a in parts):
+            return {'Unknown'}
+        out = set()
+        for k in self._kinds(parts[0], qual):
+            if k in DIRKINDS or k == 'Resolved':
+                out.add('Resolved' if len(parts) > 1 else k)
+            elif k != 'NoneK':
+                out.add(k)
+        return out or {'NoneK'}
+
+    def _dirname_kinds(self, node, qual):
+        out = set()
+        for k in self._kinds(node, qual):
+            out.add('AdjDir' if k in ('Resolved', 'UserGiven') else k)
+        return out
+
+    # -- sinks ----------------------------------------------------------------------------------------------------------------
     def sinks(self, quals):
         """[(qual, call node, sink name, path argument)] for filesystem calls in the given functions."""
         out = []
         for q in quals:
             fn = self.cg.funcs[q]
-            for n in walk_no_nested(fn):
+            for n in walk_fn(fn):
                 if isinstance(n, ast.Call):
                     d = dotted(n.func)
-                    if d in ('open', 'os.path.getsize', 'os.path.exists', 'os.path.isdir', 'os.path.isfile', 'os.stat', 'io.open') and n.args:
+                    if d in SINKS and n.args:
                         out.append((q, n, d, n.args[0]))
+                    elif d in ('filter', 'map') and len(n.args) == 2 and dotted(n.args[0]) in SINKS:
+                        out.append((q, n, dotted(n.args[0]), n.args[1]))       # the sink is applied to every element
+                    elif isinstance(n.func, ast.Attribute) and n.func.attr in PATH_SINK_METHODS and not (d or '').startswith(('os.', 're.', 'struct.')) \
+                            and not self.cg.callees(q, n):
+                        out.append((q, n, '<path>.' + n.func.attr, n.func.value))
+                    elif isinstance(n.func, ast.Attribute) and n.func.attr == 'open' and not n.args and not (d or '').startswith('os.') and not self.cg.callees(q, n):
+                        out.append((q, n, '<path>.open', n.func.value))
+        out.sort(key=lambda t: (t[1].lineno, t[1].col_offset))
         return out
+
+    # -- aliases of a parameter object / in-place mutation -------------------------------------------------------------------
+    def same_object(self, node, qual, pname, seen=None):
+        """The expression may evaluate to the very object bound to parameter `pname` of `qual` (no copy in between)."""
+        seen = seen if seen is not None else set()
+        if id(node) in seen:
+            return False
+        seen.add(id(node))
+        if isinstance(node, ast.Name):
+            for how, v in self.reaching(qual, node):
+                if how[0] == 'param' and node.id == pname:
+                    return True
+                if how[0] == 'expr' and self.same_object(v, qual, pname, seen):
+                    return True
+            return False
+        if isinstance(node, ast.BoolOp):
+            return any(self.same_object(v, qual, pname, seen) for v in node.values)
+        if isinstance(node, ast.IfExp):
+            return self.same_object(node.body, qual, pname, seen) or self.same_object(node.orelse, qual, pname, seen)
+        if isinstance(node, ast.NamedExpr):
+            return self.same_object(node.value, qual, pname, seen)
+        return False
+
+    def inplace_mutations(self, qual, pname):
+        """AST nodes in `qual` that mutate, in place, an object that may be the one bound to parameter `pname`."""
+        fn = self.fn_of(qual)
+        out = []
+        for n in walk_fn(fn):
+            if isinstance(n, ast.Call) and isinstance(n.func, ast.Attribute) and n.func.attr in LIST_MUTATORS:
+                if self.same_object(n.func.value, qual, pname):
+                    out.append(n)
+            elif isinstance(n, ast.AugAssign):
+                # `x += [...]` extends a list in place (x is read before the statement)
+                if isinstance(n.target, ast.Name):
+                    probe = ast.copy_location(ast.Name(id=n.target.id, ctx=ast.Load()), n)
+                    probe._parent = n
+                    if self.same_object(probe, qual, pname):
+                        out.append(n)
+                elif isinstance(n.target, ast.Subscript) and self.same_object(n.target.value, qual, pname):
+                    out.append(n)
+            elif isinstance(n, (ast.Assign, ast.Delete)):
+                for t in n.targets:
+                    if isinstance(t, ast.Subscript) and self.same_object(t.value, qual, pname):
+                        out.append(n)
+        return out
+
+    # -- absoluteness ------------------------------------------------------------------------------------------------------------
+    def is_abs(self, node, qual, sources=None, _busy=None):
+        """The value is definitely an absolute path, or a container whose elements all are (vacuously true for None / empty).
+        `sources` collects (expression, is absolute) for every *element source* of a container (list literal elements,
+        comprehension elements, arguments of append / add / insert) and for containers that could not be opened up."""
+        busy = _busy if _busy is not None else set()
+        key = (id(node), qual)
+        if key in busy:
+            return True                     # coinductive: a cycle adds nothing new
+        busy.add(key)
+        prev = self.__dict__.get('_abs_qual')
+        self._abs_qual = qual
+        try:
+            return self._is_abs(node, qual, sources, busy)
+        finally:
+            self._abs_qual = prev
+            busy.discard(key)
+
+    def _elem(self, v, qual, sources, busy):
+        ok = self.is_abs(v, qual, None, busy)
+        if sources is not None:
+            sources.append((v, ok, qual))
+        return ok
+
+    def _leaf(self, node, sources, ok, qual=None):
+        if sources is not None:
+            sources.append((node, ok, qual if qual is not None else self._abs_qual))
+        return ok
+
+    def understood_relative(self, node, qual):
+        """A value that is not definitely absolute is *understood* to be possibly relative when the dataflow knows where it comes
+        from: the command line / the caller, text of a source line, a relative literal."""
+        if qual is None:
+            return False
+        ks = set(self.kinds(node, qual)) - {'NoneK'}
+        return bool(ks) and ks <= {'UserGiven', 'CliArgs', 'RawToken', 'Literal', 'Dir'}
+
+    def _is_abs(self, node, qual, sources, busy):
+        rec = lambda n, q=qual: self.is_abs(n, q, sources, busy)
+        if node is None or (isinstance(node, ast.Constant) and node.value is None):
+            return True
+        if isinstance(node, ast.Constant):
+            return self._leaf(node, sources, isinstance(node.value, str) and node.value.startswith('/'))
+        if isinstance(node, (ast.List, ast.Tuple, ast.Set)):
+            return all([rec(e.value) if isinstance(e, ast.Starred) else self._elem(e, qual, sources, busy) for e in node.elts])
+        if isinstance(node, ast.Starred):
+            return rec(node.value)
+        if isinstance(node, (ast.ListComp, ast.SetComp, ast.GeneratorExp)):
+            return self._elem(node.elt, qual, sources, busy)
+        if isinstance(node, ast.BoolOp):
+            return all([rec(v) for v in node.values])
+        if isinstance(node, ast.IfExp):
+            return all([rec(node.body), rec(node.orelse)])
+        if isinstance(node, ast.BinOp) and isinstance(node.op, ast.Add):
+            return all([rec(node.left), rec(node.right)])
+        if isinstance(node, ast.Call):
+            d = dotted(node.func)
+            if d in ('os.path.abspath', 'os.path.realpath') or is_cwd_expr(node):
+                return self._leaf(node, sources, True)
+            if isinstance(node.func, ast.Attribute) and node.func.attr in ('resolve', 'absolute') and not node.args and not self.attr_stores().get(node.func.attr):
+                return self._leaf(node, sources, True)
+            if d == 'map' and len(node.args) == 2:
+                if dotted(node.args[0]) in ('os.path.abspath', 'os.path.realpath'):
+                    return self._leaf(node, sources, True)
+                return self._leaf(node, sources, False)
+            if d in PATH_CTORS and node.args:
+                probe = []
+                return self._leaf(node, sources, self.is_abs(node.args[0], qual, probe, busy))
+            if d == 'os.path.join' and node.args and not isinstance(node.args[0], ast.Starred):
+                # join(absolute, ...) is absolute whatever follows
+                probe = []
+                ok = self.is_abs(node.args[0], qual, probe, busy)
+                return self._leaf(node, sources, ok)
+            if d in ('os.path.dirname', 'os.path.normpath', 'os.path.normcase', 'os.fspath', 'str') and node.args:
+                probe = []
+                ok = self.is_abs(node.args[0], qual, probe, busy)
+                return self._leaf(node, sources, ok)
+            if d in ('list', 'tuple', 'sorted', 'set', 'frozenset', 'reversed', 'copy.copy', 'copy.deepcopy') :
+                return rec(node.args[0]) if node.args else True
+            if qual is not None:
+                callees = self.callees(qual, node)
+                if callees and d not in self.facts.classes:
+                    ok = True
+                    for c in callees:
+                        for n in walk_no_nested(self.fn_of(c)):
+                            if isinstance(n, ast.Return) and n.value is not None:
+                                ok = self.is_abs(n.value, c, sources, busy) and ok
+                            elif isinstance(n, ast.Yield) and n.value is not None and not self._in_lambda(n, self.fn_of(c)):
+                                ok = self._elem(n.value, c, sources, busy) and ok
+                            elif isinstance(n, ast.YieldFrom) and not self._in_lambda(n, self.fn_of(c)):
+                                ok = self.is_abs(n.value, c, sources, busy) and ok
+                    return ok
+            return self._leaf(node, sources, False)
+        if isinstance(node, ast.Name):
+            if qual is None:
+                st = self.facts.assign_nodes.get(node.id)
+                return rec(st.value, None) if st is not None else self._leaf(node, sources, False)
+            ok = True
+            fn = self.fn_of(qual)
+            defs = self.reaching(qual, node)
+            for how, v in defs:
+                h = how[0]
+                if h in ('expr', 'aug'):
+                    ok = rec(v) and ok
+                elif h == 'elem' and how[1] == 'expr':
+                    ok = rec(v) and ok
+                elif h == 'param':
+                    sites = self.call_sites_of(qual)
+                    if not sites or qual in self.value_refs():
+                        ok = self._leaf(node, sources, False)
+                    for cq, call in sites:
+                        bound = self.bind_call(qual, call, cq)
+                        if node.id in bound:
+                            for arg in bound[node.id]:
+                                ok = self.is_abs(arg, cq, sources, busy) and ok
+                        else:
+                            dflt = self.default_of(fn, node.id)
+                            ok = (self.is_abs(dflt, qual, sources, busy) if dflt is not None else self._leaf(node, sources, False)) and ok
+                elif h == 'free':
+                    st = self.facts.assign_nodes.get(node.id)
+                    par = self.cg.parent.get(qual)
+                    if par:
+                        pfn = self.fn_of(par)
+                        ds = self.all_defs(pfn, node.id)
+                        if not ds:
+                            ok = self._leaf(node, sources, False)
+                        for how2, v2 in ds:
+                            ok = (self.is_abs(v2, par, sources, busy) if how2[0] in ('expr', 'aug') else self._leaf(node, sources, False)) and ok
+                    elif st is not None:
+                        ok = self.is_abs(st.value, None, sources, busy) and ok
+                    else:
+                        ok = self._leaf(node, sources, False)
+                else:
+                    ok = self._leaf(node, sources, False)
+            if not all(how[0] == 'free' for how, _ in defs):
+                for kind, v in self.growth_sites(fn, node.id):
+                    ok = (self._elem(v, qual, sources, busy) if kind == 'elem' else rec(v)) and ok
+            return ok
+        return self._leaf(node, sources, False)
+
+    # -- control dependence on "the input is an existing path" -----------------------------------------------------------------
+    def is_exists_test(self, node, qual, _depth=0):
+        """The expression is true exactly when the caller's own input names an existing file: os.path.exists/isfile(<UserGiven>),
+        or a variable whose every reaching definition is such a test."""
+        if _depth > 6:
+            return False
+        if isinstance(node, ast.Call) and dotted(node.func) in ('os.path.exists', 'os.path.isfile') and node.args:
+            ks = self.kinds(node.args[0], qual) - {'NoneK'}
+            return 'UserGiven' in ks
+        if isinstance(node, ast.Call) and isinstance(node.func, ast.Attribute) and node.func.attr in ('exists', 'is_file') and not node.args \
+                and not (dotted(node.func) or '').startswith('os.'):
+            ks = self.kinds(node.func.value, qual) - {'NoneK'}
+            return 'UserGiven' in ks
+        if isinstance(node, ast.Name):
+            defs = self.reaching(qual, node)
+            return bool(defs) and all(h[0] == 'expr' and self.is_exists_test(v, qual, _depth + 1) for h, v in defs)
+        return False
+
+    def _formula(self, test, qual, depth=0):
+        """Boolean formula of a test over the atom 'E' (the caller's own input names an existing file) and opaque atoms:
+        ('atom', name) | ('const', bool) | ('not', f) | ('and', [f]) | ('or', [f])."""
+        if isinstance(test, ast.Constant):
+            return ('const', bool(test.value))
+        if isinstance(test, ast.UnaryOp) and isinstance(test.op, ast.Not):
+            return ('not', self._formula(test.operand, qual, depth))
+        if isinstance(test, ast.BoolOp):
+            return ('and' if isinstance(test.op, ast.And) else 'or', [self._formula(v, qual, depth) for v in test.values])
+        if self.is_exists_test(test, qual):
+            return ('atom', 'E')
+        if isinstance(test, ast.Name) and qual is not None and depth < 6:
+            defs = self.reaching(qual, test)
+            if len(defs) == 1 and defs[0][0][0] == 'expr':
+                return self._formula(defs[0][1], qual, depth + 1)
+        return ('atom', unparse(test))
+
+    def cwd_guard(self, qual, node):
+        """Is `node` executed only when os.path.exists(<the caller's input>) is false (the input is a source *string*)?
+        'guarded' | 'unguarded' (decided over fully understood conditions) | 'unknown' (the conditions involve opaque tests)."""
+        fn = self.fn_of(qual)
+        constraints = []
+        child = node
+        p = getattr(node, '_parent', None)
+        while p is not None and p is not fn:
+            if isinstance(p, ast.If):
+                if any(child is x for x in p.body):
+                    constraints.append((self._formula(p.test, qual), True))
+                elif any(child is x for x in p.orelse):
+                    constraints.append((self._formula(p.test, qual), False))
+            elif isinstance(p, ast.IfExp):
+                if child is p.body:
+                    constraints.append((self._formula(p.test, qual), True))
+                elif child is p.orelse:
+                    constraints.append((self._formula(p.test, qual), False))
+            elif isinstance(p, ast.BoolOp) and child is not p.values[0]:
+                # `a or b`: b runs only when a is false; `a and b`: only when a is true
+                idx = [i for i, x in enumerate(p.values) if x is child][0]
+                for prev in p.values[:idx]:
+                    constraints.append((self._formula(prev, qual), isinstance(p.op, ast.And)))
+            # guard clauses: an earlier `if t: <leaves>` in the same block means t was false here (and symmetrically)
+            if isinstance(child, ast.stmt):
+                for field in ('body', 'orelse', 'finalbody'):
+                    lst = getattr(p, field, None)
+                    if isinstance(lst, list) and any(x is child for x in lst):
+                        idx = [i for i, x in enumerate(lst) if x is child][0]
+                        for prev in lst[:idx]:
+                            if isinstance(prev, ast.If):
+                                if _exits(prev.body) and not _exits(prev.orelse):
+                                    constraints.append((self._formula(prev.test, qual), False))
+                                elif prev.orelse and _exits(prev.orelse) and not _exits(prev.body):
+                                    constraints.append((self._formula(prev.test, qual), True))
+            child = p
+            p = getattr(p, '_parent', None)
+        # the same for the top-level block of the function
+        if isinstance(child, ast.stmt) and p is fn:
+            idx = [i for i, x in enumerate(fn.body) if x is child]
+            for prev in fn.body[:idx[0]] if idx else []:
+                if isinstance(prev, ast.If):
+                    if _exits(prev.body) and not _exits(prev.orelse):
+                        constraints.append((self._formula(prev.test, qual), False))
+                    elif prev.orelse and _exits(prev.orelse) and not _exits(prev.body):
+                        constraints.append((self._formula(prev.test, qual), True))
+        if not constraints:
+            return 'unguarded'
+        atoms = []
+
+        def collect(f):
+            if f[0] == 'atom' and f[1] not in atoms:
+                atoms.append(f[1])
+            elif f[0] == 'not':
+                collect(f[1])
+            elif f[0] in ('and', 'or'):
+                for x in f[1]:
+                    collect(x)
+        for f, _ in constraints:
+            collect(f)
+        if len(atoms) > 10:
+            return 'unknown'
+
+        def ev(f, env):
+            if f[0] == 'atom':
+                return env[f[1]]
+            if f[0] == 'const':
+                return f[1]
+            if f[0] == 'not':
+                return not ev(f[1], env)
+            vals = [ev(x, env) for x in f[1]]
+            return all(vals) if f[0] == 'and' else any(vals)
+        violated = False
+        for bits in range(1 << len(atoms)):
+            env = {a: bool(bits >> i & 1) for i, a in enumerate(atoms)}
+            if all(ev(f, env) == v for f, v in constraints) and env.get('E', True):
+                violated = True
+        if not violated:
+            return 'guarded'
+        return 'unguarded' if set(atoms) <= {'E'} else 'unknown'
